@@ -362,6 +362,41 @@ fn find_cutoff(pars: &[f64], max_cutoff: usize) -> usize {
     cutoff
 }
 
+/// Verification hooks: read-only access to the private likelihood functions and
+/// the fitted state. Compiled only with the `verif-hooks` feature.
+#[cfg(feature = "verif-hooks")]
+pub mod verif_hooks {
+    use super::CoverageHistogram;
+    use crate::ska_dict::bit_encoding::UInt;
+
+    /// Mixture log-likelihood as used by the fit
+    pub fn log_likelihood(pars: &[f64], counts: &[f64]) -> f64 {
+        super::log_likelihood(pars, counts)
+    }
+
+    /// Gradient of the log-likelihood as used by the fit
+    pub fn grad_ll(pars: &[f64], counts: &[f64]) -> Vec<f64> {
+        super::grad_ll(pars, counts)
+    }
+
+    /// Integer cutoff search as used by the fit
+    pub fn find_cutoff(pars: &[f64], max_cutoff: usize) -> usize {
+        super::find_cutoff(pars, max_cutoff)
+    }
+
+    /// Fitted (w0, c, cutoff) and the (truncated) count histogram
+    pub fn fitted_state<IntT: for<'a> UInt<'a>>(
+        cov: &CoverageHistogram<IntT>,
+    ) -> (f64, f64, usize, Vec<u32>, bool) {
+        (cov.w0, cov.c, cov.cutoff, cov.counts.clone(), cov.fitted)
+    }
+
+    /// Multiplicity of every distinct split k-mer counted so far
+    pub fn kmer_counts<IntT: for<'a> UInt<'a>>(cov: &CoverageHistogram<IntT>) -> Vec<(IntT, u32)> {
+        cov.kmer_dict.iter().map(|(k, v)| (*k, *v)).collect()
+    }
+}
+
 #[cfg(test)]
 mod tests {
     use super::*;
